@@ -29,7 +29,7 @@ def col_lib_rs(tree):
 
 COL_SLICE = {
     "name": "vslice_col",
-    "deps": {"serde": '{ version = "1.0", features = ["derive"] }'},
+    "deps": {"serde": '{ version = "1.0", features = ["derive"] }', "serde_json": '"1.0"'},
     "shims": ["vkcoll"],
     "lib_rs": col_lib_rs,
 }
